@@ -98,7 +98,7 @@ func init() {
 			ruleTagOnlyNil(c, "C04.TAGONLYNIL")
 			ruleErrHolderShared(c, "C04.HOLDER")
 		},
-		Controls: []controlExpect{{"C04.INJECT", "zzControlBad_C04_INJECT", true}},
+		Controls: []controlExpect{{"C04.INJECT", "zzControlBad_C04_INJECT", true}, {"C04.FILTERSTORE", "zzControlBad_C04_FILTERSTORE", true}, {"C04.FILTERSTORE", "zzControlGood_C04_FILTERSTORE", false}},
 	})
 	register(&Property{
 		ID:          "C05",
@@ -587,7 +587,24 @@ func ruleOldFirst(c *Ctx, rule string, typesNames []string) {
 				case *ssa.BinOp:
 					// len(old) > 0 is false  /  len(old) == 0 is true
 					if lc, ok := x.X.(*ssa.Call); ok {
-						if bi, ok := lc.Call.Value.(*ssa.Builtin); ok && bi.Name() == "len" && lc.Call.Args[0] == old {
+						// (the old value as a helper handed it back: a join of the value and nil)
+						isOld := func(v ssa.Value) bool {
+							if v == old {
+								return true
+							}
+							leaves, n := phiLeaves(v), 0
+							for _, l := range leaves {
+								if isNilConst(l) {
+									continue
+								}
+								if l != old {
+									return false
+								}
+								n++
+							}
+							return n > 0
+						}
+						if bi, ok := lc.Call.Value.(*ssa.Builtin); ok && bi.Name() == "len" && isOld(lc.Call.Args[0]) {
 							if (x.Op == token.GTR && !f.Pol) || (x.Op == token.EQL && f.Pol) || (x.Op == token.NEQ && !f.Pol) {
 								return true
 							}
